@@ -123,6 +123,7 @@ class Outcome:
         self.rejected = {}  # backend -> (step, class) documented rejection reproduced
         self.steps_ok = {}  # backend -> number of accepted steps
         self.probes_judged = 0
+        self.source_frames_checked = 0
         self.judged_as = {}
         self.frames = {}  # (backend, handle) -> df
         self.sql_texts = {}
@@ -420,6 +421,10 @@ def run_program(prog, backends=("pol", "sqlite"), opts=None, be_cache=None) -> O
                     out.add("reexport:" + be, be, h, f"second export raised {type(e).__name__}: {e}", verb="export")
         for v in M.SAN.drain():
             out.add("san:" + v["inv"], be, None, v["detail"], verb=v["verb"])
+        if be == "pol":
+            for p in drive.source_frame_problems(backend, {t["name"] for t in prog["tables"]}):
+                out.add("san:I4", be, None, p, verb="export")
+            out.source_frames_checked = len(prog["tables"])
         out.stats[be] = {"ref_excluded": ref_excluded}
     # ---- D16: engine bug exclusion keyed by program feature
     kept = []
